@@ -89,6 +89,12 @@ CHECKS.update({
          "forward conversions (duration->ParsingDuration, set->slice, value->*string text) are harness code; under string-casting chains only string-castable leaves are filled; alias primary and copy never both filled",
          "DESIGN.md section 4 C10"),
 })
+CHECKS.update({
+ 'C16': ("crash/hang monitor: recover() around every textual entry point and every source/decoder/mangler, heartbeat watchdog with paired goroutine dumps, process watcher for fatal errors, result-type assertion; seeded grammar-aware mutational inputs and all-named-leaf types",
+         "Seeded byte strings (uniform and dictionary mutations of valid inputs: quotes, backslashes, separators, NUL, control bytes, invalid UTF-8, 400-digit numbers, deep nesting) are fed to parse.String for ~2200 target types (every leaf type, slices and maps of them), all parse.* entry points, the flag helpers, all case decoders/encoders, environment values and flag/pflag arguments of a rich fixed type and as file content to the JSON/YAML/TOML/Cue decoders (plain and alias/set-slice wrapped); seeded types whose leaves are all user-defined named types, user pointers and embedded structs go through env, both flag sources, the four decoders and every mangler chain. Every call must return a value of the requested type or an error.",
+         "a hang is reported only when the heartbeat stalls for 30s and two goroutine dumps show the worker inside a dials frame; inputs with NUL reach the env chain via parse.String only",
+         "DESIGN.md section 4 C16"),
+})
 NOT_YET = "check not yet built in this session (planned in DESIGN.md section 4; the technique applies)"
 
 def main():
